@@ -381,6 +381,48 @@ pub fn run(tier: &str, seed: u64) -> Report {
     let v = check_roundtrip(&mut report, &info, "generated value");
     report.nontrivial.insert(format!("gen/{}", class_of(&info)));
     push_roundtrip(&mut batch, &mut report, &v, "written");
+    // (2b) the older rendering of a generated value: every dependency that had a types specifier —
+    // static or dynamic import — has it again after the upgrade (its text; the range depends on
+    // where the comment stood), everything else is unchanged
+    {
+      let v1 = to_module_graph_1_with(&v, false);
+      let has_types = info.dependencies.iter().any(|d| match d {
+        DependencyDescriptor::Static(s) => s.types_specifier.is_some(),
+        DependencyDescriptor::Dynamic(d) => d.types_specifier.is_some(),
+      });
+      let texts_ok = info.dependencies.iter().all(|d| match d {
+        DependencyDescriptor::Static(s) => s.types_specifier.as_ref().map(|t| !t.text.is_empty() && !t.text.contains('"')).unwrap_or(true),
+        DependencyDescriptor::Dynamic(d) => d.types_specifier.as_ref().map(|t| !t.text.is_empty() && !t.text.contains('"')).unwrap_or(true),
+      });
+      if has_types && texts_ok {
+        if let Ok(vi) = serde_json::from_value::<deno_graph::packages::JsrPackageVersionInfo>(json!({"exports": {}, "manifest": {}, "moduleGraph1": {"/m.ts": v1}})) {
+          report.evaluations += 1;
+          report.count("moduleGraph1-upgrades-of-generated-values");
+          let strip = |mi: &ModuleInfo| -> ModuleInfo {
+            let mut m = mi.clone();
+            for d in m.dependencies.iter_mut() {
+              let ts = match d {
+                DependencyDescriptor::Static(s) => &mut s.types_specifier,
+                DependencyDescriptor::Dynamic(d) => &mut d.types_specifier,
+              };
+              if let Some(t) = ts {
+                t.range = PositionRange { start: deno_graph::Position::new(0, 0), end: deno_graph::Position::new(0, 0) };
+              }
+            }
+            m
+          };
+          match vi.module_info("/m.ts") {
+            Some(up) if strip(&up) == strip(&info) => {}
+            other => report.fail(
+              "oracle",
+              "module-graph-1-upgrade-loses-information",
+              format!("moduleGraph1 {} upgraded to {:?}, original {:?}", v1, other.map(|m| strip(&m)), strip(&info)),
+              json!({"v1": v1}),
+            ),
+          }
+        }
+      }
+    }
     for _ in 0..2 {
       let m = mutate(&mut rng, &v);
       push_roundtrip(&mut batch, &mut report, &m, "mutated");
@@ -518,7 +560,14 @@ pub fn run(tier: &str, seed: u64) -> Report {
           report.fail("oracle", "registry-build-failed", format!("mg {:?} cache {}", mg, cache), w.describe());
           continue;
         };
-        let js = serde_json::to_string(&b.graph).unwrap();
+        let mut js = serde_json::to_string(&b.graph).unwrap();
+        // what the JSON form leaves out: the declarations derived from a WebAssembly module
+        for m in b.graph.modules() {
+          if let deno_graph::Module::Wasm(wm) = m {
+            js.push_str(&format!("\nwasm-declarations {} {:?} bytes={}", wm.specifier, wm.source_dts, wm.source.len()));
+            report.count("registry-wasm-modules-compared");
+          }
+        }
         let errs = b.graph.module_errors().map(|e| e.to_string_with_range()).collect::<Vec<_>>().join(" | ");
         report.nontrivial.insert(format!("registry/{:?}/{}", mg, cache));
         let used_info = b.log.iter().any(|c| c.cache_setting == "only" && !c.specifier.ends_with("meta.json"));
